@@ -1,12 +1,13 @@
 //@unit sm9_rand
 //@serves C09 C10 C14 C17 C20
-//@source gm-sm9/src/u256.rs
+//@source gm-sm9/src/u256.rs gm-sm9/src/fields.rs gm-sm9/src/fields/fp.rs
 //@assume rand::thread_rng() is an OS-seeded CSPRNG whose fill_bytes output is uniform and independent (statistical quality is outside this technique); model: fill_bytes is the only function that establishes csprng_bytes(..)
 //@assume the rejection loop of random_u256 terminates with probability 1 (exec_allows_no_decreases_clause)
 //@rewrite-text ret >= [1, 0, 0, 0] ==> shim_u256_ge1(&ret)
 //@assume shim_u256_ge1: `ret >= [1, 0, 0, 0]` on [u64; 4] is the derived lexicographic order starting at limb 0, i.e. ret[0] >= 1 (candidates whose low limb is 0 are rejected: a 2^-64 bias, not a range violation)
 //@export csprng_bytes9 csprng9
 //@include-spec sm2_math
+//@include-spec sm9_math
 //@section spec
 // provenance predicates: bytes that came out of the CSPRNG / a scalar decoded from such bytes
 pub uninterp spec fn csprng_bytes9(b: Seq<u8>) -> bool;
@@ -47,6 +48,66 @@ fn sm9_random_u256(range: &U256) -> (ret: U256)
         ret = u256_from_be_bytes(&buf);
         proof { assert(buf@.subrange(0, 32) =~= buf@); }
         if u256_cmp(&ret, range) < 0 && shim_u256_ge1(&ret) {
+            break;
+        }
+    }
+    ret
+}
+
+//@section spec local
+proof fn lemma_rand9_consts()
+    ensures val4(SM9_N_MINUS_ONE@) == N9() - 1, val4(SM9_P_MINUS_ONE@) == P9() - 1,
+{
+    assert(val4(SM9_N_MINUS_ONE@) == N9() - 1 && val4(SM9_P_MINUS_ONE@) == P9() - 1) by(compute);
+}
+proof fn lemma_nonzero4(a: Seq<u64>)
+    requires a.len() == 4, !(a =~= seq![0u64, 0u64, 0u64, 0u64])
+    ensures val4(a) >= 1
+{
+    if a[0] == 0 && a[1] == 0 && a[2] == 0 && a[3] == 0 { assert(a =~= seq![0u64, 0u64, 0u64, 0u64]); }
+}
+//@extract gm-sm9/src/lib.rs SM9_N_MINUS_ONE
+//@extract gm-sm9/src/lib.rs SM9_P_MINUS_ONE
+//@section code gm-sm9/src/fields.rs
+// public mod-N scalar sampler (not called by the crate itself): every result is in [1, N-2] and comes from the CSPRNG
+#[verifier::exec_allows_no_decreases_clause]
+fn fn_random_u256() -> (ret: U256)
+    ensures 1 <= val4(ret@) < N9() - 1, csprng9(ret@)
+{
+    let mut rng = rand::thread_rng();
+    let mut buf: [u8; 32] = [0; 32];
+    let mut ret;
+    proof { lemma_rand9_consts(); }
+    loop
+        ensures 1 <= val4(lv4(ret)) < N9() - 1, csprng9(lv4(ret))
+    {
+        rng.fill_bytes(&mut buf[..]);
+        ret = u256_from_be_bytes(&buf);
+        proof { assert(buf@.subrange(0, 32) =~= buf@); }
+        if u256_cmp(&ret, &SM9_N_MINUS_ONE) < 0 && ret != [0, 0, 0, 0] {
+            proof { lemma_nonzero4(ret@); }
+            break;
+        }
+    }
+    ret
+}
+//@section code gm-sm9/src/fields/fp.rs
+#[verifier::exec_allows_no_decreases_clause]
+fn fp_random_u256() -> (ret: U256)
+    ensures 1 <= val4(ret@) < P9() - 1, csprng9(ret@)
+{
+    let mut rng = rand::thread_rng();
+    let mut buf: [u8; 32] = [0; 32];
+    let mut ret;
+    proof { lemma_rand9_consts(); }
+    loop
+        ensures 1 <= val4(lv4(ret)) < P9() - 1, csprng9(lv4(ret))
+    {
+        rng.fill_bytes(&mut buf[..]);
+        ret = u256_from_be_bytes(&buf);
+        proof { assert(buf@.subrange(0, 32) =~= buf@); }
+        if u256_cmp(&ret, &SM9_P_MINUS_ONE) < 0 && ret != [0, 0, 0, 0] {
+            proof { lemma_nonzero4(ret@); }
             break;
         }
     }
